@@ -3,6 +3,7 @@
 
 use crate::scenario::*;
 use proptest::prelude::*;
+use vcore::Tier;
 
 #[derive(Clone, Copy, Debug)]
 pub struct GenCfg {
@@ -237,4 +238,107 @@ pub fn scenario(cfg: GenCfg) -> BoxedStrategy<Scenario> {
     (any::<u64>(), endpoint(cfg), prop::collection::vec(client, 1..=cfg.max_clients), net(cfg))
         .prop_map(move |(seed, server, clients, net)| Scenario { seed, server, clients, net, cap_ms: cfg.cap_ms, strays: vec![], stateless_reset: false, rebinds: vec![], attacks: vec![], evil: None, tp: None })
         .boxed()
+}
+
+// ---------------------------------------------------------------------------------------
+// complete enumeration: every single fault (and every adjacent pair of drops) on the first N datagrams of each
+// direction of a few fixed scenarios that exercise blocking, retransmission, resets and stop_sending
+
+pub const SF_N: u64 = 36;
+pub const SF_KINDS: [Fault; 5] = [Fault::Drop, Fault::Dup(1), Fault::Delay(30), Fault::Corrupt { pos: 17, mask: 0x40 }, Fault::Truncate(20)];
+pub const SF_SHAPES: u64 = 4;
+
+fn sf_writer(steps: Vec<WStep>, end: WEnd) -> WriterScript {
+    WriterScript { steps, end }
+}
+
+pub fn single_fault_base(shape: u64) -> Scenario {
+    let mut server = EndpointCfg::default();
+    let mut client = EndpointCfg::default();
+    server.limits.idle_timeout_ms = Some(6_000);
+    client.limits.idle_timeout_ms = Some(6_000);
+    let streams = match shape {
+        // bidirectional transfer under small stream and connection windows (MAX_* frames among the first datagrams)
+        0 => {
+            server.limits.bidi_remote_window = Some(4_096);
+            server.limits.data_window = Some(6_000);
+            client.limits.bidi_local_window = Some(4_096);
+            vec![StreamScript {
+                initiator: Side::Client,
+                bidi: true,
+                fwd: sf_writer(vec![WStep::Send(9_000), WStep::Write(3_000)], WEnd::Finish),
+                fwd_reader: ReaderScript::default(),
+                rev: Some(sf_writer(vec![WStep::Send(7_000)], WEnd::Finish)),
+                rev_reader: Some(ReaderScript::default()),
+            }]
+        }
+        // three unidirectional streams against a stream-count limit of 1 (MAX_STREAMS needed twice)
+        1 => {
+            server.limits.max_open_remote_uni = Some(1);
+            (0..3)
+                .map(|_| StreamScript { initiator: Side::Client, bidi: false, fwd: sf_writer(vec![WStep::Send(2_500)], WEnd::Finish), fwd_reader: ReaderScript::default(), rev: None, rev_reader: None })
+                .collect()
+        }
+        // the writer resets after part of the data, the peer's reader stops another stream early
+        2 => vec![
+            StreamScript { initiator: Side::Client, bidi: false, fwd: sf_writer(vec![WStep::Send(6_000), WStep::PauseUs(15_000), WStep::Send(2_000)], WEnd::Reset(7)), fwd_reader: ReaderScript::default(), rev: None, rev_reader: None },
+            StreamScript {
+                initiator: Side::Server,
+                bidi: true,
+                fwd: sf_writer(vec![WStep::Send(12_000)], WEnd::Finish),
+                fwd_reader: ReaderScript { stop_after: Some((3_000, 9)), ..ReaderScript::default() },
+                rev: Some(sf_writer(vec![WStep::Send(1_000)], WEnd::Finish)),
+                rev_reader: Some(ReaderScript::default()),
+            },
+        ],
+        // a larger transfer with MTU probing enabled and a slow reader
+        _ => {
+            client.mtu = (1228, 1228, 1500);
+            server.mtu = (1228, 1228, 1500);
+            vec![StreamScript {
+                initiator: Side::Client,
+                bidi: true,
+                fwd: sf_writer(vec![WStep::Send(30_000)], WEnd::Finish),
+                fwd_reader: ReaderScript { pause_us: 300, ..ReaderScript::default() },
+                rev: Some(sf_writer(vec![WStep::Send(20_000)], WEnd::FinishNoWait)),
+                rev_reader: Some(ReaderScript::default()),
+            }]
+        }
+    };
+    Scenario {
+        seed: 11 + shape,
+        server,
+        clients: vec![ClientCfg { endpoint: client, conn: ConnScript { streams, close_code: Some(0), datagrams: vec![] } }],
+        net: NetCfg::default(),
+        cap_ms: 60_000,
+        strays: vec![],
+        stateless_reset: false,
+        rebinds: vec![],
+        attacks: vec![],
+        evil: None,
+        tp: None,
+    }
+}
+
+pub fn single_fault_total(_t: Tier) -> u64 {
+    SF_SHAPES * (2 * SF_N * SF_KINDS.len() as u64 + 2 * (SF_N - 1))
+}
+
+pub fn single_fault_case(_t: Tier, idx: u64) -> Scenario {
+    let singles = 2 * SF_N * SF_KINDS.len() as u64;
+    let per_shape = singles + 2 * (SF_N - 1);
+    let mut sc = single_fault_base(idx / per_shape);
+    let mut i = idx % per_shape;
+    if i < singles {
+        let dir = if i % 2 == 0 { Dir::Up } else { Dir::Down };
+        i /= 2;
+        sc.net.overrides.push((dir, (i % SF_N) as u32, SF_KINDS[(i / SF_N) as usize]));
+    } else {
+        i -= singles;
+        let dir = if i % 2 == 0 { Dir::Up } else { Dir::Down };
+        let k = (i / 2) as u32;
+        sc.net.overrides.push((dir, k, Fault::Drop));
+        sc.net.overrides.push((dir, k + 1, Fault::Drop));
+    }
+    sc
 }
